@@ -18,7 +18,9 @@ import sys
 
 from common import Check
 
-from sim.c17_llc import Pair, hexs
+from sim.c17_llc import Pair, hexs, enqueue_blocks
+
+RESET = 'reset ' + ('old' if enqueue_blocks() else 'new')
 
 logging.disable(logging.CRITICAL)
 
@@ -226,7 +228,7 @@ class History(object):
         self.ck = ck
         self.agf = agf
         self.pair = Pair(agf)
-        self.lines = ['reset']
+        self.lines = [RESET]
         self.expect = [('reset', None)]       # (result text or None, (digA, digB) or None)
         self.ops = []
         self.ref = {'A': Ref(ck, 'A'), 'B': Ref(ck, 'B')} if monitor else None
@@ -530,6 +532,12 @@ def corpus():
     # service discovery answers next to a large raw PDU in one aggregated frame (small MIU budget left for SDRES)
     H.append([('resolve', 'B', VALID[k], k) for k in range(4)] + [('pump', 'B'), ('socket', 'A', 'raw'), ('bind', 'A', 0, ('a', 40)),
              ('rawsend', 'A', 0, 'UI,33,40,' + '5a' * 225), ('pump', 'A'), ('pump', 'A'), ('pump', 'A')])
+    # a datagram for an established connection (set up by a raw access point answering CC): FRMR, the connection is
+    # shut down when the FRMR leaves (before fixes/c07-7 the link thread waits for ever: hang)
+    H.append([('socket', 'B', 'dlc'), ('connect', 'B', 0, ('a', 40)), ('socket', 'A', 'raw'), ('bind', 'A', 0, ('a', 40)),
+              ('rawsend', 'A', 0, 'CC,32,40'), ('pump', 'A'), ('rawsend', 'A', 0, 'UI,32,40,07'), ('pump', 'A'), ('pump', 'B'),
+              ('pump', 'B'), ('recvfrom', 'A', 0), ('recvfrom', 'A', 0), ('close', 'B', 0), ('getsockname', 'B', 0),
+              ('socket', 'B', 'ldl'), ('bind', 'B', 1, ('a', 32))])
     # odd names
     h = []
     for k, n in enumerate(ODD + INVALID):
@@ -808,7 +816,7 @@ class Batch(object):
             for line, (res, dig) in zip(H.lines, H.expect):
                 got = out[pos] if pos < len(out) else '?missing'
                 pos += 1
-                if line == 'reset':
+                if line.startswith('reset'):
                     continue
                 self.nsteps += 1
                 n += 1
